@@ -126,9 +126,24 @@ def check(prop, tier, seed):
                 if ok is not True:
                     undecided.append('EXTRACTION-UNSOUND or fidelity guard not runnable for unit %s: %s' % (u.name, out.strip()[-300:]))
     except L.ExtractionBreak as e:
+        # the contracts cannot be woven into this text; a *semantic* static fact (one that is the property's own statement about the
+        # text, e.g. C15 "no const_cast") is still decidable and is still reported
+        sviol = []
+        try:
+            src0 = L.Source(core.HEADER)
+            for sf in spec.get('static', []):
+                for s in sf(src0):
+                    if not s['ok'] and s.get('kind', 'pattern') == 'semantic':
+                        path = write_replay(prop, type('J', (), dict(unit='static', fn='scan', info={}, cmds=['python scan']))(),
+                                            dict(id='static/' + s['id'], prop='static', desc=s['desc'], line=s.get('line'), trace=[]), None, dict(detail=s.get('detail')))
+                        sviol.append('VIOLATION property=%s replay=%s obligation="static/%s" no-failing-input-found' % (prop, os.path.relpath(path, VERIF), s['id']))
+        except Exception:
+            pass
+        for v in sviol:
+            print(v)
         print('UNDECIDED property=%s extraction break: %s' % (prop, e))
-        write_evidence(prop, tier, seed, t0, [], {}, [], [], ['extraction break: %s' % e], spec)
-        return 2
+        write_evidence(prop, tier, seed, t0, [], {}, [], [], ['extraction break: %s' % e], spec, violations=sviol)
+        return 1 if sviol else 2
 
     known = [k for k in load_known() if k.get('property') == prop and k.get('status', 'finding') == 'finding']
     known_state = {}
